@@ -474,6 +474,32 @@ func suiteLocals(o *Out, thorough bool, seed int64) {
 			snapshotOracle(o, line, t, hosts, d)
 		}
 	}
+	for _, fn := range []string{"abs", "ceil", "floor", "round", "roundBank", "toInt", "toFloat", "toString", "finite", "sqrt", "exp", "-", "+", "~", "!", "!!", "typeof "} {
+		call := func(x string) string {
+			if strings.HasSuffix(fn, " ") || len(fn) <= 2 {
+				return fn + x
+			}
+			return fn + "(" + x + ")"
+		}
+		for _, t := range []string{
+			"$a = 2.75, $i = " + call("$a") + ", [$a, $i]", "$a = 2.75, $b = $a, " + call("$b") + ", $a", call("p") + ", p", "$a = p, " + call("$a") + ", [p, $a]",
+			"$a = -7.5, " + call("$a") + ", $a + 0", "max($a = 1.5, 2), " + call("$a") + ", $a", "[" + call("q") + ", q, " + call("q") + "]",
+		} {
+			for _, d := range datas[2:] {
+				line := fmt.Sprintf("EV\t%s\t0\t%s\t%s", hx([]byte(t)), hosts, d)
+				emitEval(o, t, 0, hosts, d, true)
+				snapshotOracle(o, line, t, hosts, d)
+			}
+		}
+	}
+	for _, op := range []string{"+", "-", "*", "/", "%", "&", "|", "^", "<", "==", "&&", "||", "??"} {
+		for _, t := range []string{"$a = 2.75, $a " + op + " 2, $a", "p " + op + " q, [p, q]", "$a = p, $a " + op + " $a, [$a, p]", "max(p, q) " + op + " min(p, q), [p, q]"} {
+			d := datas[2]
+			line := fmt.Sprintf("EV\t%s\t0\t%s\t%s", hx([]byte(t)), hosts, d)
+			emitEval(o, t, 0, hosts, d, true)
+			snapshotOracle(o, line, t, hosts, d)
+		}
+	}
 	// exhaustive small programs over a 12-lexeme alphabet
 	lex := []string{"$a", "$b", "x", "=", ",", "1", "(", ")", "[", "]", "+", "f"}
 	k := 5
@@ -605,7 +631,16 @@ func implFields(text string) string {
 		}
 		return "F" + strings.Join(hs, ",")
 	}
-	return f(formula.ResolveReferenceFields) + "|" + f(formula.ResolveReferenceFieldsNotLocal)
+	a1, n1 := f(formula.ResolveReferenceFields), f(formula.ResolveReferenceFieldsNotLocal)
+	a2, n2 := f(formula.ResolveReferenceFields), f(formula.ResolveReferenceFieldsNotLocal)
+	// a second source parsed from the same text, queried in the other order
+	src2, _ := formula.ParseSourceCode([]byte(text))
+	src = src2
+	n3, a3 := f(formula.ResolveReferenceFieldsNotLocal), f(formula.ResolveReferenceFields)
+	if a1 != a2 || a1 != a3 || n1 != n2 || n1 != n3 {
+		return a1 + "|" + n1 + "|unstable:" + a2 + "/" + n2 + "/" + a3 + "/" + n3
+	}
+	return a1 + "|" + n1
 }
 
 func suiteFields(o *Out, thorough bool, seed int64) {
@@ -800,6 +835,16 @@ func suiteBridge(o *Out, thorough bool, seed int64) {
 		}
 	}
 	o.Notes = append(o.Notes, fmt.Sprintf("exhaustive: all signatures with 0..1 parameters over %d types x optional context x variadic, x every argument list of length 0..1 (and 2 for variadic) over a %d-value grid, with and without spread", len(bridgeTypes), len(bridgeArgVals)))
+	// nested calls in every argument position and several calls by one runner (each call gets its own arguments)
+	{
+		hosts := "1:0:0:2:0:a,a:Ii:100;2:0:0:2:0:a:Ii:7;3:1:1:2:0:a,a:S" + hx([]byte("v"))
+		data := wmap("p", "H1", "q", "H2", "v", "H3", "x", "Ii:5", "y", ws("s"))
+		for _, t := range []string{"p(5, q(3))", "p(q(1), 2)", "p(q(1), q(2))", "p(1, 2) + p(5, q(3))", "p(1, 2), p(3, p(4, q(5)))", "v(1, 2, 3), v(4, q(5), 6)",
+			"max(1, 2) + max(5, abs(3))", "max(1, 2, 3), max(9, min(4, 5))", "p(x, q(y)) + p(q(x), y)", "[p(1, 2), p(3, q(4))]", "q(1), q(2), p(q(3), q(4))",
+			"left('abcdef', len('abc')) + right('abcdef', len('ab'))", "v(x, [1, 2]...)", "v(1), v(1, 2), v(1, 2, 3), v(q(1), q(2))", "p(p(p(1, 2), 3), p(4, p(5, 6)))"} {
+			emitEval(o, t, 0, hosts, data, true)
+		}
+	}
 	// results: returned Go numbers are normalised; errors abort; wrong result count
 	for _, res := range []string{"Ii:7", "Ii32:-7", "Ii64:9007199254740993", "G" + hx([]byte("0.1")), "Ii8:7", "Iu:7", ws("s"), "N", "T", "A1 Ii:1"} {
 		for _, fail := range []bool{false, true} {
